@@ -186,6 +186,56 @@ def check_compose_locales(ctx, s, locs, ugo):
     ctx.count("composed:selected-locale")
 
 
+def check_previous_locales(ctx, strings, langs, ugo):
+    """One long-lived parser with try_previous_locales=True: the locales that already produced a result are tried first, in
+    the order they first succeeded, then the selection in its usual order.  The result must be that of the first language in
+    that sequence whose single-language parse succeeds, and the reported locale always belongs to the selection."""
+    from dateparser.data.languages_info import language_order
+    from dateparser.date import DateDataParser
+
+    base_order = list(langs) if ugo else sorted(langs, key=language_order.index)
+    try:
+        p = DateDataParser(languages=list(langs), use_given_order=ugo, try_previous_locales=True, settings={"RELATIVE_BASE": B})
+    except Exception as e:
+        ctx.violation({"kind": "previous-locales", "languages": langs, "use_given_order": ugo}, e, "a parser", "selection-raised",
+                      {"kind": "previous-locales"})
+        return
+    prev, fed = [], []
+    for s in strings:
+        fed.append(s)
+        case = {"kind": "previous-locales", "strings": list(fed), "languages": list(langs), "use_given_order": ugo}
+        try:
+            m = p.get_date_data(s)
+        except Exception as e:
+            ctx.violation(case, e, "a DateData", "selection-raised", {"kind": "previous-locales"})
+            return
+        ctx.ran()
+        got = (m["date_obj"], m["period"], m["locale"])
+        exp = (None, "day", None)
+        for L in prev + [x for x in base_order if x not in prev]:
+            r = one(L, s)
+            if isinstance(r[0], Exception):
+                ctx.count("single-language raised (C02's subject)")
+                return
+            if r[0] is not None:
+                exp = r
+                if L not in prev:
+                    prev.append(L)
+                break
+        feats = {"kind": "previous-locales", "ugo": ugo, "has_default": False}
+        if got[2] is not None and languages_of(got[2], language_order) not in langs:
+            ctx.violation(case, got, "a locale of the selection", "locale-outside-selection", feats)
+            return
+        if got[0] is None and exp[0] is None:
+            ctx.count("previous-locales:none")
+            continue
+        if got != exp:
+            ctx.violation(dict(case, previous=list(prev)), got, exp, "composition", feats)
+            return
+        ctx.count("previous-locales:agreed")
+        ctx.nontrivial("prev", tuple(fed[-3:]), tuple(langs), ugo)
+
+
 def check_autodetect(ctx, s):
     from dateparser.date import DateDataParser
 
@@ -238,6 +288,14 @@ def run_compose(ctx, desc):
                 # must depend on use_given_order of *this* call only
                 check_compose(ctx, s, det, langs, not ugo, dl)
                 check_compose(ctx, s, det, langs, ugo, dl)
+    # long-lived parsers that try the previously successful locales first
+    strs = [r[0] for r in rows]
+    for t in range(12 if ctx.tier == "quick" else 60):
+        picked = [r for r in rnd.sample(rows, min(len(rows), 4)) if r[2] in language_order]
+        langs = list(dict.fromkeys([r[2] for r in picked] + rnd.sample(language_order[:40], rnd.randrange(1, 3))))
+        feed = [r[0] for r in picked] * 2 + ["02/03/2015", "1.2.2003", rnd.choice(strs), "12/31/15 10:30", rnd.choice(strs)]
+        rnd.shuffle(feed)
+        check_previous_locales(ctx, feed, langs, rnd.random() < 0.5)
     if desc["i"] == 0:
         zc = zone_word_cases()
         ctx.count("zone_word_cases", len(zc))
